@@ -22,3 +22,14 @@ func VerifCellDump(cb *CellBuffer) string {
 	return sb.String()
 }
 
+
+// VerifSimDump renders the private logical-buffer state of a SimulationScreen.
+func VerifSimDump(s Screen) string {
+	ss, ok := s.(*simscreen)
+	if !ok {
+		return ""
+	}
+	ss.Lock()
+	defer ss.Unlock()
+	return VerifCellDump(&ss.back) + fmt.Sprintf("|%d,%d,%v,%v,%v", ss.cursorx, ss.cursory, ss.cursorvis, ss.clear, ss.style)
+}
